@@ -119,6 +119,19 @@ CHECKS["C09"] = {
     "technique": "TLA+ catalogue/generator spec + TLC (exhaustive enumeration and -simulate) feeding the real library; trace validation of the recorded call/return trace by TLC against a totality spec",
 }
 
+CHECKS["C07"] = {
+    "text": "PARTIAL. Explicit TLA+ specification (spec/Helmert.tla) of Helmert parameter assembly (alias keys, convention/t_epoch requirements, t_obs folding), the per-tuple time evolution P + (t-t_epoch)*dP in exact integer arithmetic, the small-angle rotation as integer skew matrices per EPSG convention, and an application machine structured like the code. TLC checks alias-independence of the resolved record, own-epoch evaluation independent of set order, untouched fourth element, exact Inv after Fwd on the translation/rate part, t_obs = per-tuple epoch, dynamic = static-at-P(t), and the convention transposition relations; all enumerated definitions and coordinate sets (mixed, repeated, out-of-order epochs) are replayed into the real operator: exactly on integer data, bit-identically between alias spellings, and to 1e-9 m + 8 ulp for algebraic relations and small-angle linear forms; assembled parameters compared through params().",
+    "design_ref": "DESIGN.md §5.7",
+    "note": "Not claimed: that R is a proper rotation in exact mode, distance scaling, the second-order error of the small-angle inverse, Molodensky accuracy (floating-point claims without discrete content). Bounded: quick 896 parameter cores x sets <= 3 tuples x 3 epochs; thorough 3-value parameter pools, sets <= 4 (translation/rate) / 3 tuples x epochs {1995, 2000, 2002, NaN}. A dynamic definition without t_epoch is only required not to panic. 1e-9 m alone is below one ulp at 1e7 m, hence + 8 ulp.",
+    "technique": "TLA+ spec + TLC exhaustive enumeration; TLC-generated behaviours replayed into the real operator (exact, relational and linear-form comparison)",
+}
+CHECKS["C13"] = {
+    "text": "Explicit TLA+ specification (spec/ProjParams.tla) of plane projections as (x_0,y_0) + k_0*a*Core(lon-lon_0, lat) with Core uninterpreted: resolution of written definitions (implicit gamut defaults, utm/butm derivation in integers, lcc second parallel, merc/webmerc on a sphere, noop aliases), partition into classes, and the exact rational affine relation between any two members; TLC checks the relations R1-R9, composition through the canonical member, inversion, and the UTM integers for all 60 zones x 2 hemispheres. Every pair is applied to a domain point lattice forward and inverse in the real operators: bit-identical for utm/tmerc and butm/btmerc and the noop aliases, 1e-9 m + 16 ulp otherwise; resolved x_0, y_0, k_0 and UTM integers compared with params().",
+    "design_ref": "DESIGN.md §5.13",
+    "note": "lat_ts <-> k_0 uses the statement's closed form evaluated in the driver (assumption_evaluations). Quick: canonical member, one-parameter neighbours and twins (86k pairs); thorough: all pairs per class (2.85M) incl. every built-in ellipsoid name. lat_0 of merc/tmerc/btmerc, omerc lonc and the identity of the default ellipsoid are outside the statement and not compared; where lon_0 or a false origin differs the tolerance includes the rounding of the longitude and of the shift.",
+    "technique": "TLA+ spec + TLC exhaustive enumeration of definition pairs; pairwise relational replay into the real operators + params() comparison",
+}
+
 _claimed = set(CHECKS)
 _NA_FIXED = {
     "C05": NA_REASON_NUMERIC,
